@@ -152,12 +152,16 @@ class TTY(object):
             frame = bytearray(self.tty.read(6))
             if frame is None or len(frame) == 0:
                 raise IOError(errno.ETIMEDOUT, os.strerror(errno.ETIMEDOUT))
+            if len(frame) < 6:
+                raise IOError(errno.EIO, os.strerror(errno.EIO))
             if frame.startswith(b"\x00\x00\xff\x00\xff\x00"):
                 log.log(logging.DEBUG-1, "<<< %s", hexlify(frame).decode())
                 return frame
             LEN = frame[3]
             if LEN == 0xFF:
                 frame += self.tty.read(3)
+                if len(frame) < 9:
+                    raise IOError(errno.EIO, os.strerror(errno.EIO))
                 LEN = frame[5] << 8 | frame[6]
             frame += self.tty.read(LEN + 1)
             log.log(logging.DEBUG-1, "<<< %s", hexlify(frame).decode())
